@@ -10,7 +10,11 @@ TECHNIQUE = ('exhaustive enumeration of all heading outlines of length 0..4/0..6
 ASSUMPTIONS = ['domain as in the property: the qualifying headings form an outline; titles are plain words with optional emphasis/code/link markup',
                'setext headings are not placed inside block quotes (recorded defect of C03/C04, not of the TOC)']
 BOUNDS = {'quick': 4, 'thorough': 6}
-MARKUP = ['{w}', '*{w}* x', '`{w}` y', '[{w}](/u) z', '**{w}**', '{w} &amp; v', '{w} \\* u', '~~{w}~~ t', '***{w}*** ***a*** ***b*** ***c*** ***d*** `e` `f`']
+MARKUP = ['{w}', '*{w}* x', '`{w}` y', '[{w}](/u) z', '**{w}**', '{w} &amp; v', '{w} \\* u', '~~{w}~~ t', '***{w}*** ***a*** ***b*** ***c*** ***d*** `e` `f`',
+          # raw inline HTML (markup: dropped, its text content stays), text that merely looks like a tag or a character reference
+          # (escaped, or inside a code span: stays as text)
+          '{w} <kbd class="k">k</kbd> v', '{w} \\<b\\> v', '`&copy;` {w} &amp;copy; v', '{w} <!-- c --> v']
+PLAIN = {9: '{w} k v', 10: '{w} <b> v', 11: '&copy; {w} &copy; v', 12: '{w}  v'}
 
 
 def describe(tier):
@@ -60,6 +64,8 @@ def write_doc(levels, spell, place, marks, zz, repeat=False):
         plain = (title.replace('\\*', '\0').replace('*', '').replace('\0', '*').replace('`', '').replace('[', '').replace('](/u)', '')
                  .replace('&amp;', '&').replace('~~', ''))
         plain = plain.replace('`', '')
+        if marks[i] in PLAIN:
+            plain = PLAIN[marks[i]].format(w=w)
         heads.append((lv, plain))
         if spell[i] == 'setext' and lv <= 2:
             h = [title, '===' if lv == 1 else '---']
@@ -140,7 +146,8 @@ def configs_for(levels):
         zzs = [frozenset(s) for k in range(n + 1) for s in itertools.combinations(range(n), k)]
     else:
         zzs = [frozenset()] + [frozenset([i]) for i in range(n)]
-    markss = [tuple(0 for _ in range(n)), tuple((i + 1) % len(MARKUP) for i in range(n)), tuple((i + 8) % len(MARKUP) for i in range(n)), tuple((i + 5) % len(MARKUP) for i in range(min(n, 1)))+ tuple(0 for _ in range(max(0, n - 1)))]
+    markss = [tuple(0 for _ in range(n)), tuple((i + 1) % len(MARKUP) for i in range(n)), tuple((i + 8) % len(MARKUP) for i in range(n)), tuple((i + 5) % len(MARKUP) for i in range(min(n, 1)))+ tuple(0 for _ in range(max(0, n - 1))),
+              tuple((i + 10) % len(MARKUP) for i in range(n))]
     for spell in spells:
         for place in places:
             if any(s == 'setext' and p == 'quote' and l <= 2 for s, p, l in zip(spell, place, levels)):
